@@ -490,3 +490,59 @@ def _arity_params(e, P, fbuild):
     ar.tag = ed.vindex['Fixed']
     n = ar.field(e, 'Fixed', 0, 'u8').get(e)
     return z3.ZeroExt(56, n)
+
+
+# ---------------------------------------------------------------------------------------------- K5 raising preserves the frame
+F36_SRC = 'fn f() { let a = 10; try { -nil; } catch e {} return a; }\nprint(f());\n'
+F36_REPLAY = dict(kind='lay', source=F36_SRC, expect_stdout='10\n')
+
+
+@obligation('C04.K5.runtime_error_preserves_stack', 'C04', programs=('vm',))
+def k5_runtime_error(res, tier):
+    """Vm::runtime_error / runtime_error_from_str (every error the VM itself raises: type errors, undefined properties, failed
+    imports ...) with the construction of the error object summarised by the call protocol (callee and arguments are replaced by one
+    result): when the error is handed to the unwinder every stack slot that was live before is unchanged and the stack top is where
+    it was - the locals and temporaries of the raising frame keep their values"""
+    P = get_program('vm')
+    e = Engine(P, loop_bound=4, timeout_s=120, max_depth=40)
+    W = VmWorld(e, P)
+    W.havoc_objects(e)
+    W.summarise_calls(e)
+    # runtime_error itself is the subject: drop the summary VmWorld installs for it
+    e.models = [m_ for m_ in e.models if 'runtime_error' not in m_[2]]
+    f = P.lookup('vm::Vm::runtime_error')
+    res.bounds = {'stack': 'any depth, any contents', 'error class': 'any', 'message': 'any'}
+    res.assumptions = ['call protocol (C06.K2 / C01): a call with n arguments replaces the callee slot and the n argument slots by one result',
+                       'ensure_stack keeps the contents (C06.K2.ensure_stack)']
+
+    def path(e):
+        st = W.fresh_state(e)
+        sp0 = st.sp
+        arr0 = st.stack.arr
+        cls = AbsObj(z3.BitVec('error_class', 64), 'ObjRef<Class>')
+        msg = AbsObj(z3.BitVec('message', 64), 'LyStr')
+        outcome = None
+        try:
+            e.call(f, [Ref(st.vm_cell), cls, msg])
+        except PathEnd as pe:
+            if pe.kind != 'vm_error':
+                raise
+            outcome = e.path_state.get('outcome')
+        if outcome == ('callee_error',):
+            return {'case': 'the error class initialiser raised'}
+        i = z3.BitVec('slot', 64)
+        e.add_constraint(z3.ULT(i, sp0))
+        e.check(z3.Select(st.stack.arr, i) == z3.Select(arr0, i), 'runtime_error: every live stack slot keeps its value while the error object is built',
+                {'slot_is_the_last_one': e.is_valid(i == sp0 - 1) if False else None})
+        e.check(W.sp(e) == sp0, 'runtime_error: the stack top is where it was when the error is handed to the unwinder')
+        return {'case': 'error set', 'outcome': str(outcome)}
+    results = e.explore(path)
+    for r in results:
+        for lab, ok, info in list(r.checks):
+            if not ok and 'runtime_error:' in lab:
+                res.fail('C04.K5:runtime_error builds the error object over the top stack slot',
+                         'Vm::runtime_error pushes only the message and then calls the error class with one argument: the call protocol takes the slot below '
+                         '(the last local or temporary of the raising frame) as the callee slot, overwrites it with the new instance and pops it', info, replay=F36_REPLAY)
+                r.checks.remove((lab, ok, info))
+    _panics(res, results, 'C04.K5.runtime_error')
+    summarize_paths(res, e, results, lambda r: r.info if isinstance(r.info, dict) else None, key_prefix='C04.K5:', unwind_ok=False)
